@@ -32,7 +32,7 @@ def accessor_ops(b, rng, with_generated):
         ops.append(({"op": "eval", "h": inner_e}, "derived-expression-inner"))
     for m in (info.get("metrics") or [])[:1]:
         ops.append(({"op": "eval", "h": m}, "metric-expression"))
-    for c in b.conlist[:2]:
+    for c in b.conlist[:2] + [c_ for c_ in b.conlist[-1:] if c_ not in b.conlist[:2]]:
         ops.append(({"op": "eval", "h": c}, "user-constraint"))
         ops.append(({"op": "eval_dual", "h": c}, "user-constraint"))
     for M in b.psds[:2]:
@@ -84,7 +84,8 @@ class C16(Prop):
 
     def generate(self, rng, tier, idx):
         case = ["accessors", "accessors", "status", "status", "twin", "options", "real-unbounded"][idx % 7]
-        deco = [rng.choice(["lmi_sym", "lmi_func", "lmi_asym", "func_cons", "eq_cons", "extra_metric"])
+        deco = [rng.choice(["lmi_sym", "lmi_func", "lmi_asym", "func_cons", "eq_cons", "extra_metric", "part_cons",
+                            "part_cons", "composite_items", "lmi_affine", "useless_partition"])
                 for _ in range(rng.choice([1, 2]))]
         b = templates.build_model(rng, weights=SMALL if case != "real-unbounded" else None,
                                   n=rng.choice([1, 2]), decorations=deco)
